@@ -93,7 +93,7 @@ def check_instance(ctx, g, where="ambient"):
     c = geoms._plain(g.coordinates)
     spec = {"kind": "instance", "where": where, "g": {"type": tag, "coordinates": c}}
     cls = data.geometries.GEOMETRY_MAPPING.get(tag)
-    if cls is None or type(g) is not cls:
+    if cls is None or not isinstance(g, cls):      # "an instance of the class named by its type tag" (a subclass instance is one)
         ctx.violate("instance:class_matches_tag", "instance:class_matches_tag", observed=type(g).__name__, expected=tag, spec=spec)
         return
     if not ref_valid(tag, c):
